@@ -995,8 +995,12 @@ pub fn judge(case: &VmCase, rep: &mut Report, mon: &Monitor, pools: &mut Pools, 
                 }
             }
             (Err(e1), Ok(Err(e2))) => {
-                let same_state = in_child_err(e1) || real.vm == real2.vm;
-                if e1.index != e2.index || e1.oog != e2.oog || !same_state {
+                // which child's error a failing Compute reports depends on the schedule (rayon hands back any one of
+                // them): for errors raised inside a child only the index of the Compute op is compared, not the
+                // nested payload or its root-cause class
+                let nested = in_child_err(e1) || in_child_err(e2);
+                let same_state = nested || real.vm == real2.vm;
+                if e1.index != e2.index || (!nested && e1.oog != e2.oog) || !same_state {
                     rep.violation("C14", "exec-differs", format!("exec_ops -> Err at {} ({}), exec_bytecode -> Err at {} ({})", e1.index, e1.text, e2.index, e2.text), case_json());
                 }
             }
